@@ -8,6 +8,8 @@ import (
 
 	"go.etcd.io/bbolt"
 
+	"github.com/openziti/storage/ast"
+
 	"github.com/openziti/storage/verifrt"
 )
 
@@ -177,9 +179,10 @@ func verifEventsEqual(got, want []vEvent) bool {
 // ---- transaction bodies ----
 
 type vTxOp struct {
-	kind int // 0 create emp, 1 create mgr, 2 update via emp store, 3 update via mgr store, 4 delete via emp store, 5 delete via mgr store, 6 create with blank id, 7 field-restricted update
+	kind int // 0 create emp, 1 create mgr, 2 update via emp store, 3 update via mgr store, 4 delete via emp store, 5 delete via mgr store, 6 create with blank id, 7 field-restricted update, 8 field-restricted update whose first field may be rejected by its setter
 	slot int
 	name string
+	bad  bool // op 8: the title handed in is empty (rejected by SetRequiredString)
 }
 
 func verifC07Body(nOps int, batch bool, faults bool, label string) {
@@ -227,10 +230,13 @@ func verifC07Body(nOps int, batch bool, faults bool, label string) {
 
 	ops := make([]vTxOp, nOps)
 	for k := range ops {
-		ops[k].kind = verifrt.Choose("op", 8)
+		ops[k].kind = verifrt.Choose("op", 9)
 		ops[k].slot = verifrt.Choose("slot", nSlots)
 		if ops[k].kind <= 3 || ops[k].kind >= 6 {
 			ops[k].name = verifrt.String("opname", 1)
+		}
+		if ops[k].kind == 8 {
+			ops[k].bad = verifrt.Bool("title.empty")
 		}
 	}
 
@@ -279,6 +285,13 @@ func verifC07Body(nOps int, batch bool, faults bool, label string) {
 			}
 		case 6:
 			opRejected[k] = true // blank id is never usable
+		case 8: // update restricted to title, name and roles; an empty title is rejected by its setter
+			if cur[j].kind == 0 || taken || log.veto[EntityUpdated] || op.bad {
+				opRejected[k] = true
+			} else {
+				cur[j].name = op.name
+				want = verifExpectEvents(want, EntityUpdated, vIds[j], op.name, cur[j].kind == 2)
+			}
 		case 7: // update restricted to the roles field: the name passed in is not written
 			if cur[j].kind == 0 || log.veto[EntityUpdated] {
 				opRejected[k] = true
@@ -334,6 +347,12 @@ func verifC07Body(nOps int, batch bool, faults bool, label string) {
 				err = env.emp.Create(ctx, &vEmp{Id: "", Name: op.name})
 			case 7:
 				err = env.emp.Update(ctx, &vEmp{Id: id, Name: op.name, Roles: []string{"r1"}}, MapFieldChecker{vFRoles: struct{}{}})
+			case 8:
+				title := "T"
+				if op.bad {
+					title = ""
+				}
+				err = env.emp.Update(ctx, &vEmp{Id: id, Name: op.name, Title: &title, Roles: []string{"r1"}}, MapFieldChecker{vFTitle: struct{}{}, vFName: struct{}{}, vFRoles: struct{}{}})
 			}
 			opErr[k] = err
 			if err != nil {
@@ -385,6 +404,95 @@ func verifC07Body(nOps int, batch bool, faults bool, label string) {
 	})
 }
 
+// ---- a veto raised by a constraint of the CHILD store ----
+
+const vTeamType = "vteams"
+
+type vTeam struct {
+	Id   string
+	Lead *string
+}
+
+func (e *vTeam) GetId() string         { return e.Id }
+func (e *vTeam) SetId(id string)       { e.Id = id }
+func (e *vTeam) GetEntityType() string { return vTeamType }
+
+type vTeamStrategy struct{}
+
+func (vTeamStrategy) NewEntity() *vTeam                        { return new(vTeam) }
+func (vTeamStrategy) FillEntity(e *vTeam, b *TypedBucket)      { e.Lead = b.GetString("lead") }
+func (vTeamStrategy) PersistEntity(e *vTeam, c *PersistContext) { c.SetStringP("lead", e.Lead) }
+
+type vTeamStore struct {
+	*BaseStore[*vTeam]
+}
+
+// teams.lead -> mgr (child store) with a restricting fk index; the delete
+// constraint it installs lives on the child store
+func verifNewTeamStore(mgr *vMgrStore) *vTeamStore {
+	def := StoreDefinition[*vTeam]{
+		EntityType:      vTeamType,
+		EntityStrategy:  vTeamStrategy{},
+		EntityNotFoundF: func(id string) error { return NewNotFoundError(vTeamType, "id", id) },
+		BasePath:        []string{vRootPath},
+	}
+	s := &vTeamStore{BaseStore: NewBaseStore(def)}
+	s.InitImpl(s)
+	s.AddIdSymbol("id", ast.NodeTypeString)
+	lead := s.AddFkSymbol("lead", mgr)
+	teams := mgr.AddFkSetSymbol("teams", s)
+	s.AddNullableFkIndex(lead, teams)
+	return s
+}
+
+// VerifC07_ChildStoreConstraintVeto: a manager (parent + child data) who is
+// referenced by a team cannot be deleted, through either store: the veto of
+// the child store's constraint reaches the caller, nothing changes, no event
+// fires. Unreferenced, the delete succeeds.
+func VerifC07_ChildStoreConstraintVeto() {
+	env := verifNewEnv(vStoreCfg{nickNullable: true})
+	defer env.close()
+	mgr := verifNewMgrStore(env.emp, false)
+	teams := verifNewTeamStore(mgr)
+	log := &vEventLog{}
+	verifRegisterListeners(env.emp, mgr, log)
+	referenced := verifrt.Bool("referenced")
+	err := env.update(func(ctx MutateContext) error {
+		if err := mgr.Create(ctx, &vMgr{vEmp: vEmp{Id: "a", Name: "Na"}, Lead: true}); err != nil {
+			return err
+		}
+		if err := mgr.Create(ctx, &vMgr{vEmp: vEmp{Id: "ab", Name: "Nab"}}); err != nil {
+			return err
+		}
+		lead := "ab"
+		if referenced {
+			lead = "a"
+		}
+		return teams.Create(ctx, &vTeam{Id: "t", Lead: &lead})
+	})
+	verifrt.Assert(err == nil, "C07 child-constraint setup succeeds")
+	log.events = nil
+	var before []vDumpEntry
+	env.view(func(tx *bbolt.Tx) { before = verifDump(tx) })
+	viaChild := verifrt.Bool("viachild")
+	err = env.update(func(ctx MutateContext) error {
+		if viaChild {
+			return mgr.DeleteById(ctx, "a")
+		}
+		return env.emp.DeleteById(ctx, "a")
+	})
+	verifrt.Settle()
+	verifrt.Assert((err != nil) == referenced, "C07 a delete vetoed by a constraint of the child store is reported to the caller (and only then)")
+	env.view(func(tx *bbolt.Tx) {
+		if referenced {
+			verifrt.Assert(verifDumpEqual(before, verifDump(tx)), "C07 a delete vetoed by the child store's constraint changes nothing")
+			verifrt.Assert(len(log.events) == 0, "C07 a vetoed delete fires no events")
+		} else {
+			verifrt.Assert(env.emp.GetEntityBucket(tx, []byte("a")) == nil && mgr.GetEntityBucket(tx, []byte("a")) == nil, "C07 the unreferenced manager is deleted in both stores")
+		}
+	})
+}
+
 func VerifC07_UpdateTransaction() {
 	n := 1
 	if verifrt.Tier() == 1 {
@@ -394,6 +502,128 @@ func VerifC07_UpdateTransaction() {
 }
 
 func VerifC07_BatchTransaction() { verifC07Body(1, true, true, "C07 batch") }
+
+// VerifC08_ContextReuse: the same MutateContext carries two transactions in a
+// row (Db.Update detaches the tx from the context when it ends, so a context
+// can be used again). Events belong to the transaction that made the change:
+// what a rolled-back transaction did produces no event when a later
+// transaction on the same context commits, and a committed transaction's
+// events are not delivered again.
+func VerifC08_ContextReuse() {
+	env := verifNewEnv(vStoreCfg{nickNullable: true})
+	defer env.close()
+	mgr := verifNewMgrStore(env.emp, false)
+	log := &vEventLog{}
+	verifRegisterListeners(env.emp, mgr, log)
+	ctx := NewMutateContext(context.Background())
+	fail := [2]bool{verifrt.Bool("tx0.fails"), verifrt.Bool("tx1.fails")}
+	child := [2]bool{verifrt.Bool("tx0.child"), verifrt.Bool("tx1.child")}
+	names := [2]string{verifrt.String("name", 1), verifrt.String("name", 1)}
+	verifrt.Assume(names[0] != names[1])
+	var want []vEvent
+	for k := 0; k < 2; k++ {
+		k := k
+		err := env.db.Update(ctx, func(c MutateContext) error {
+			var err error
+			if child[k] {
+				err = mgr.Create(c, &vMgr{vEmp: vEmp{Id: vIds[k], Name: names[k]}})
+			} else {
+				err = env.emp.Create(c, &vEmp{Id: vIds[k], Name: names[k]})
+			}
+			if err != nil {
+				return err
+			}
+			if fail[k] {
+				return errors.New("verif: caller error")
+			}
+			return nil
+		})
+		verifrt.Settle()
+		verifrt.Assert((err != nil) == fail[k], "C08 reuse: the transaction fails iff its body fails")
+		if !fail[k] {
+			want = verifExpectEvents(want, EntityCreated, vIds[k], names[k], child[k])
+		}
+		verifrt.Assert(verifEventsEqual(log.events, want), "C08 reuse: after each transaction the delivered events are exactly those of the committed transactions so far")
+	}
+	env.view(func(tx *bbolt.Tx) {
+		for k := 0; k < 2; k++ {
+			verifrt.Assert(env.emp.IsEntityPresent(tx, vIds[k]) == !fail[k], "C08 reuse: entity present iff its transaction committed")
+		}
+	})
+}
+
+// VerifC08_SeveralChildStores: a parent with two child stores; an entity of
+// the one registered second is created, updated and deleted through any store
+// of the family: each listener of its child store and of the parent store
+// hears each committed change exactly once.
+func VerifC08_SeveralChildStores() {
+	env := verifNewEnv(vStoreCfg{nickNullable: true})
+	defer env.close()
+	ext := verifNewMgrStore(env.emp, false)
+	transit := verifNewTransitStore(env.emp)
+	err := env.update(func(ctx MutateContext) error {
+		h := &vErrHolder{}
+		transit.InitializeIndexes(ctx.Tx(), h)
+		return h.err
+	})
+	verifrt.Assert(err == nil, "C08 child index initialisation succeeds")
+	type rec struct {
+		store int // 0 parent, 1 first child (ext), 2 second child (transit)
+		kind  EntityEventType
+		id    string
+	}
+	var got []rec
+	for _, t := range []EntityEventType{EntityCreated, EntityUpdated, EntityDeleted} {
+		t := t
+		env.emp.AddEntityIdListener(func(id string) { got = append(got, rec{0, t, id}) }, t)
+		ext.AddEntityIdListener(func(id string) { got = append(got, rec{1, t, id}) }, t)
+		transit.AddEntityIdListener(func(id string) { got = append(got, rec{2, t, id}) }, t)
+	}
+	// the entity lives in the second child store (or, symbolic, in the first)
+	inTransit := verifrt.Bool("in.transit")
+	err = env.update(func(ctx MutateContext) error {
+		if inTransit {
+			return transit.Create(ctx, &vTransit{vEmp: vEmp{Id: "a", Name: "Na"}, Token: "k"})
+		}
+		return ext.Create(ctx, &vMgr{vEmp: vEmp{Id: "a", Name: "Na"}})
+	})
+	verifrt.Settle()
+	verifrt.Assert(err == nil, "C08 create through a child store succeeds")
+	home := 1
+	if inTransit {
+		home = 2
+	}
+	count := func(store int, kind EntityEventType) int {
+		n := 0
+		for _, r := range got {
+			if r.store == store && r.kind == kind && r.id == "a" {
+				n++
+			}
+		}
+		return n
+	}
+	other := 3 - home
+	verifrt.Assert(count(home, EntityCreated) == 1 && count(0, EntityCreated) == 1 && count(other, EntityCreated) == 0, "C08 a create through a child store is heard once on that store and once on the parent, not on the sibling store")
+	// update through the parent store
+	err = env.update(func(ctx MutateContext) error { return env.emp.Update(ctx, &vEmp{Id: "a", Name: "Nb"}, nil) })
+	verifrt.Settle()
+	verifrt.Assert(err == nil, "C08 update through the parent store succeeds")
+	verifrt.Assert(count(home, EntityUpdated) == 1 && count(0, EntityUpdated) == 1 && count(other, EntityUpdated) == 0, "C08 an update of a child entity through the parent is heard once on its child store and once on the parent")
+	// delete through any store of the family
+	via := verifrt.Choose("via", 3)
+	err = env.update(func(ctx MutateContext) error {
+		switch via {
+		case 0:
+			return env.emp.DeleteById(ctx, "a")
+		case 1:
+			return ext.DeleteById(ctx, "a")
+		}
+		return transit.DeleteById(ctx, "a")
+	})
+	verifrt.Settle()
+	verifrt.Assert(err == nil, "C08 delete through any store of the family succeeds")
+	verifrt.Assert(count(home, EntityDeleted) == 1 && count(0, EntityDeleted) == 1 && count(other, EntityDeleted) == 0, "C08 a delete is heard once on the entity's child store and once on the parent, whichever child store was registered first")
+}
 
 // C08 shares the machinery: the event-log assertions are the C08 half.
 func VerifC08_Events() {
